@@ -121,6 +121,14 @@ func c15Prepare(t *rapid.T) (*c15State, func()) {
 		store = config.StoreDir
 		s.root = mkTemp("c15")
 	}
+	// the case may end inside this function (a refused setup request, or the byte stream of the fuzzer running dry in
+	// the middle of a draw): the directory must not stay behind
+	ok := false
+	defer func() {
+		if !ok && s.root != "" {
+			_ = os.RemoveAll(s.root)
+		}
+	}()
 	conf := baseConf(store, s.root)
 	conf.Storage.GC.RepoUploadMax = 3
 	conf.API.Referrer.Limit = 700
@@ -142,6 +150,7 @@ func c15Prepare(t *rapid.T) (*c15State, func()) {
 	s.tags = []string{"v1", "idx", "nope"}
 	s.healthy["r1"], s.healthy["r2"], s.healthy["r1/sub"] = true, true, true
 	if s.kind == "empty" {
+		ok = true
 		return s, cleanup
 	}
 	must := func(r resp, want int, what string) {
@@ -213,6 +222,7 @@ func c15Prepare(t *rapid.T) (*c15State, func()) {
 		s.healthy["legacy"] = true
 		s.srv = olareg.New(conf)
 	}
+	ok = true
 	return s, cleanup
 }
 
